@@ -59,6 +59,8 @@ def _crit(d, col):
 def _build(d):
     k = d.pick(8)
     nrows = d.int(1, 12)
+    if d.chance(1, 12):
+        nrows = d.choice([26, 27, 100, 255, 256, 300])
     if k in (0, 1, 2):
         ncrit = 1 if k == 0 else d.int(1, 3)
         cols = [[_cell(d) for _ in range(nrows)] for _ in range(ncrit)]
@@ -90,6 +92,11 @@ def _build(d):
         return {'k': 'VLOOKUP', 'table': table, 'key': key,
                 'col': d.int(1, ncols + 1)}
     n = d.int(1, 8)
+    if d.chance(1, 6):
+        n = d.choice([9, 10, 11, 29, 30, 100, 253, 254])
+        i = d.choice([1, n - 1, n, n + 1, 9, 10, 11])
+        return {'k': 'CHOOSE', 'i': i, 'vals': [j * 3 + 1 for j in range(n)],
+                'mode': 'call' if d.pick(2) else 'formula'}
     return {'k': 'CHOOSE', 'i': d.int(0, n + 1),
             'vals': [_cell(d) for _ in range(n)],
             'mode': 'call' if d.pick(2) else 'formula'}
